@@ -361,7 +361,7 @@ func TestCheck(t *testing.T) {
 		mem.Close()
 		sql.Close()
 		// the same by-filter / id mutations on stores opened WITH retention (lazy prune), store-API layer
-		retentionStoreJob(r, ji, shards, ji, min(runner.Pick(r, 15*time.Second, 4*time.Minute), max(time.Until(deadline), 0)+2*time.Minute))
+		retentionStoreJob(r, ji, shards, ji, min(runner.Pick(r, 15*time.Second, 150*time.Second), max(time.Until(deadline), 0)+2*time.Minute))
 		r.Finish()
 	}
 	twoHandlePart14(r, t) // operator mutation through a second SQLite handle against a worker's settlement (schedules)
